@@ -30,6 +30,8 @@ type Env struct {
 	// instAt: while re-evaluating an assumed clause, every outermost universally quantified conjunct is replaced by its
 	// instance at this index term (a consequence of the clause; see Enc.instancesFor)
 	instAt string
+	// atBlock: names of local variables are resolved by the closest dominating debug reference of this block
+	atBlock *ssa.BasicBlock
 }
 
 func (env *Env) flip() *Env {
@@ -333,6 +335,37 @@ func (e *Enc) unify(a, b Val) (Val, Val) {
 func (e *Enc) lookupName(name string, env *Env) (Val, bool) {
 	if v, ok := env.vars[name]; ok && env.loop == nil {
 		return v, true
+	}
+	if env.loop == nil && env.atBlock != nil {
+		// a local variable at an instruction of atBlock: the latest debug reference in that block, else the closest one
+		// in a dominating block
+		var best *dbgRef
+		for i := range e.dbg[name] {
+			r := &e.dbg[name][i]
+			if r.block == env.atBlock.Index {
+				best = r
+			}
+		}
+		if best == nil {
+			for i := range e.dbg[name] {
+				r := &e.dbg[name][i]
+				rb := e.Fn.Blocks[r.block]
+				if rb != env.atBlock && rb.Dominates(env.atBlock) {
+					if best == nil || e.Fn.Blocks[best.block].Dominates(rb) {
+						best = r
+					}
+				}
+			}
+		}
+		if best != nil {
+			v := e.val(best.val)
+			if !v.Bad {
+				if best.isAddr {
+					return e.load(env.st, derefType(best.val.Type()), v.L[0], v.L[1]), true
+				}
+				return v, true
+			}
+		}
 	}
 	if env.loop != nil {
 		// bound variables and explicit vars that are not function parameters take precedence
@@ -1087,6 +1120,46 @@ func (e *Enc) evalCall(n *ast.CallExpr, env *Env) Val {
 			return Val{T: boolT, L: []string{plain}} // will be skolemised
 		}
 		return Val{T: boolT, L: []string{forms[0]}}
+	case "forall2":
+		// forall2(a, TA, b, TB, trig(term, P)): one quantifier over two variables with an explicit trigger
+		if len(n.Args) != 5 {
+			return e.bad("forall2(a, TA, b, TB, body)", n)
+		}
+		ida, ok1 := n.Args[0].(*ast.Ident)
+		idb, ok2 := n.Args[2].(*ast.Ident)
+		ta := e.resolveType(env.pkg, exprString(n.Args[1]))
+		tb := e.resolveType(env.pkg, exprString(n.Args[3]))
+		if !ok1 || !ok2 || ta == nil || tb == nil {
+			return e.bad("forall2: bad binder", n)
+		}
+		la, oka := m.leafSorts(ta)
+		lb, okb := m.leafSorts(tb)
+		if !oka || !okb || len(la) != 1 || len(lb) != 1 {
+			return e.bad("forall2 over non-scalars", n)
+		}
+		e.n++
+		bva, bvb := fmt.Sprintf("%s!q%d", ida.Name, e.n), fmt.Sprintf("%s!q%db", idb.Name, e.n)
+		va, vb := Val{T: ta, L: []string{bva}}, Val{T: tb, L: []string{bvb}}
+		inner := env.with(ida.Name, va).with(idb.Name, vb)
+		body2 := n.Args[4]
+		pattern := ""
+		if tc, ok := body2.(*ast.CallExpr); ok && callNameOf(tc) == "trig" && len(tc.Args) == 2 {
+			tv := e.evalExpr(tc.Args[0], inner)
+			if tv.Bad || len(tv.L) != 1 {
+				return e.bad("trig(term, P): bad trigger term", n)
+			}
+			pattern = tv.L[0]
+			body2 = tc.Args[1]
+		}
+		p2 := e.evalExpr(body2, inner)
+		if p2.Bad || len(p2.L) != 1 {
+			return Val{Bad: true}
+		}
+		tf2 := and(e.typeFacts(va, env.st), e.typeFacts(vb, env.st))
+		if pattern != "" {
+			return Val{T: boolT, L: []string{fmt.Sprintf("(forall ((%s %s) (%s %s)) (! %s :pattern (%s)))", bva, m.smtSort(la[0]), bvb, m.smtSort(lb[0]), implies(tf2, p2.L[0]), pattern)}}
+		}
+		return Val{T: boolT, L: []string{fmt.Sprintf("(forall ((%s %s) (%s %s)) %s)", bva, m.smtSort(la[0]), bvb, m.smtSort(lb[0]), implies(tf2, p2.L[0]))}}
 	case "forall", "exists":
 		id, ok := n.Args[0].(*ast.Ident)
 		if !ok || len(n.Args) < 2 {
